@@ -192,6 +192,27 @@ func (env *Env) checkEvents(rs *RefState) string {
 				}
 			}
 		case KHedge:
+			if env.hedgeAbove(i) {
+				// applications of this layer overlap (one per attempt of the outer hedge): their OnHedge events
+				// cannot be told apart by log position; the totals are compared instead
+				fired, started := 0, 0
+				for _, e := range env.Events {
+					if e.Policy == i && e.Name == "hedge" {
+						fired++
+					}
+				}
+				open := false
+				for _, a := range apps {
+					open = open || a.Out == nil
+					if a.Started > 0 {
+						started += a.Started - 1
+					}
+				}
+				if !open && fired != started {
+					return fmt.Sprintf("hedge %d (inside another hedge): OnHedge x%d in all, %d hedge attempts were started in all", i, fired, started)
+				}
+				continue
+			}
 			for _, a := range apps {
 				if a.Out == nil {
 					continue
@@ -246,11 +267,15 @@ func keys(m map[string][]*Event) []string {
 // checkStats: C17.
 func (env *Env) checkStats() string {
 	hasHedge := false
+	hasTimer := false // a Timeout: its listener reads the statistics from another goroutine while the execution goes on
 	retryLayer := -1
 	nRetryLayers := 0
 	for i, s := range env.Stack {
 		if s.Kind == KHedge {
 			hasHedge = true
+		}
+		if s.Kind == KTimeout {
+			hasTimer = true
 		}
 		if s.Kind == KRetry {
 			retryLayer = i
@@ -300,6 +325,9 @@ func (env *Env) checkStats() string {
 	at := func(what string, seq0, seq1, attempts, execs, retries, hedges int) string {
 		r0, r1 := count("retry", seq0), count("retry", seq1)
 		h0, h1 := count("hedge", seq0), count("hedge", seq1)
+		if hasTimer && !hasHedge {
+			r1++ // a timeout listener runs on the timer's goroutine: a retry bumps the counters just before its OnRetry event is logged
+		}
 		if hasHedge {
 			h1++
 			r1++
@@ -310,7 +338,7 @@ func (env *Env) checkStats() string {
 		if retries < r0 || retries > r1 || hedges < h0 || hedges > h1 || attempts < 1+r0+h0 || attempts > 1+r1+h1 {
 			return fmt.Sprintf("%s: Attempts=%d Retries=%d Hedges=%d, but %d..%d retries and %d..%d hedges had been started", what, attempts, retries, hedges, r0, r1, h0, h1)
 		}
-		if !hasHedge && attempts != 1+retries+hedges {
+		if !hasHedge && !hasTimer && attempts != 1+retries+hedges {
 			return fmt.Sprintf("%s: Attempts=%d != 1 + Retries=%d + Hedges=%d", what, attempts, retries, hedges)
 		}
 		e0, e1 := completed(seq0), completed(seq1+1)
